@@ -19,13 +19,18 @@ pub fn gen_env(rng: &mut Rng, allow_whole_only: bool) -> EnvPlan {
     let stream = rng.next_u64();
     let maxes = [1usize, 2, 3, 7, 64, 4096];
     let dens = [2u32, 4, 16];
-    let style = rng.weighted(&[if allow_whole_only { 25 } else { 0 }, 15, 25, 35]);
+    let style = rng.weighted(&[if allow_whole_only { 25 } else { 0 }, 15, 25, 30, 8]);
     let modes = match style {
         0 => vec![IoMode::Whole],
         1 => vec![IoMode::Chop { max: 1 }],
         2 => {
             let m = *rng.pick(&maxes);
             vec![IoMode::Chop { max: m }, IoMode::Whole, IoMode::Chop { max: *rng.pick(&maxes) }]
+        }
+        4 => {
+            // signal storms: 17-40 consecutive Interrupted results before some transfers
+            let m = *rng.pick(&[64usize, 512, 4096, 8192]);
+            vec![IoMode::ChopBurst { max: m, den: *rng.pick(&[3u32, 8, 20]), burst: rng.range(17, 40) as u32 }]
         }
         _ => {
             let m = *rng.pick(&maxes);
@@ -70,7 +75,8 @@ pub fn gen_knobs(rng: &mut Rng, wide: bool) -> Knobs {
         9 => Some(65536),
         _ => Some(usize::MAX),
     };
-    let interval = match rng.weighted(&[25, 12, 10, 10, 12, 8, 5, 4]) {
+    let interval = match rng.weighted(&[25, 12, 10, 10, 12, 8, 5, 4, 3]) {
+        8 => Some(*rng.pick(&[(1usize << 32) + 1, (1 << 32) + 2, (1 << 32) + 7, u32::MAX as usize, u32::MAX as usize + 9])),
         0 => None,
         1 => Some(1),
         2 => Some(2),
